@@ -90,7 +90,7 @@ def plan(tier, seed):
     rng.shuffle(confs)
     specs = []
     for i, part in enumerate(core.split(confs, 24 if quick else 48)):
-        specs.append({"mode": "hops", "confs": part, "per": 480 if quick else 4800, "seed": seed * 100019 + i})
+        specs.append({"mode": "hops", "confs": part, "per": 800 if quick else 8000, "seed": seed * 100019 + i})
     for p in range(2 if quick else 4):
         specs.append({"mode": "malformed", "part": p, "parts": 2 if quick else 4, "variants": 1 if quick else 3})
     for p in range(3 if quick else 6):
@@ -131,6 +131,15 @@ def harness(cfg, unix):
     h = _harnesses.get(key)
     if h is None:
         if len(_harnesses) >= 48:
+            # keep this cache and SyncHarness's own server cache (which closes
+            # and evicts everything beyond 60 entries) in step, so that no
+            # harness held here ever refers to a closed server
+            for srv in list(SyncHarness._servers.values()):
+                try:
+                    srv.close()
+                except Exception:
+                    pass
+            SyncHarness._servers.clear()
             _harnesses.clear()
             _base.clear()
         h = SyncHarness(unix=bool(unix), **kw)
@@ -645,6 +654,9 @@ def run_degenerate(acc, spec):
                     o = judge(acc, case)
                     acc.count("unclassified")
                     acc.count("unclassified:%s" % o.status)
+                    if value in P.EMPTY_NAME_VARIANTS:
+                        # candidates for the "empty host" class, see ASSUMPTIONS
+                        acc.count("unclassified:empty-name-variant:%s" % o.status)
                     acc.distinct.add(f"degenerate|{kind}|{idx}|{dkey}")
     acc.sample({"mode": "degenerate", "catalogue": {k: len(v) for k, v in P.DEGENERATE.items()}}, limit=1)
 
@@ -694,13 +706,13 @@ def run_neighbourhood(acc, spec):
             continue
         if not P.legal_field_value(mut):
             continue
+        acc.count("neighbourhood-values")
         for variant in range(spec["variants"]):
             for c in (1, 2, 3, 4):
                 case = neighbourhood_case(kind, mut, c, variant)
                 o = judge(acc, case)
                 acc.count("neighbourhood")
                 acc.distinct.add(f"nb|{spec['base']}|{op}|{off}|{byte}|{o.status}")
-    acc.count("neighbourhood-values", k)
     acc.sample({"mode": "neighbourhood", "base": value, "kind": kind, "mutants": k}, limit=1)
 
 
